@@ -208,7 +208,7 @@ def run(res, ctx):
     ctx.update(stats=collections.Counter(), seen=set(), samples=[], corr_diffs=[], oracle_failures=[])
     st = ctx["stats"]
     check_batch(res, ctx, corpus())
-    n = 1500 if tier == "quick" else 20000
+    n = 8000 if tier == "quick" else 60000
     done = 0
     while done < n:
         k = min(1000, n - done)
@@ -229,8 +229,8 @@ def run(res, ctx):
         # a seeded slice of the exhaustive sweep
         allc = list(itertools.islice(exhaustive(), 0, None, 23))
         rng.shuffle(allc)
-        check_batch(res, ctx, allc[:300])
-        st["exhaustive"] += min(300, len(allc))
+        check_batch(res, ctx, allc[:400])
+        st["exhaustive"] += min(400, len(allc))
 
     known = known_findings()
     for name, hc, (what, extra) in ctx["oracle_failures"][:3]:
@@ -250,7 +250,7 @@ def run(res, ctx):
     res.coverage.update({
         "evaluations": st["evaluations"],
         "distinct_nontrivial": st["distinct_nontrivial"],
-        "rule": "seeded histories: 1-4 runs with non-decreasing today (same day, next days, weeks later), today's rate published or not, force flag, 1-6 look-ups per run (old dates, recent dates, future dates) over a calendar window of 3-8 weeks mostly across a year end; in-memory and CSV caches alternate; plus a hand-written corpus and a slice (quick) or all (thorough) of the exhaustive sweep of look-up orders of <= 4 dates x 3 run dates x 2 force flags. Non-trivial = a later run answers at least one look-up without downloading during it (the cache or the loaded year was used), distinct by SHA-1 of the case",
+        "rule": "seeded histories: 1-4 runs with non-decreasing today (same day, next days, weeks later), today's rate published or not, force flag, 1-6 look-ups per run (old dates, recent dates, future dates) over a calendar window of 3-8 weeks mostly across a year end; in-memory and CSV caches alternate; plus a hand-written corpus and a seeded slice (quick: 400 cases) or all (thorough) of the exhaustive sweep of look-up orders of <= 4 dates x 3 run dates x 2 force flags. Non-trivial = a later run answers at least one look-up without downloading during it (the cache or the loaded year was used), distinct by SHA-1 of the case",
         "samples": ctx["samples"],
         "input_distribution": {k: v for k, v in sorted(st.items())},
         "traces_validated_against_impl": st["evaluations"],
